@@ -44,8 +44,14 @@ def index_matrix(sizes, order):
 
 
 def unit_values(d, size, kind=0):
-    """dyadic, strictly increasing, non-uniform reference values of dimension d"""
+    """dyadic reference values of dimension d: kinds 0 / 1 increasing (uniform / not), 2 decreasing, 3 not monotone"""
     i = np.arange(size, dtype=np.float64)
+    if kind == 2:          # strictly decreasing (e.g. a sweep from + to -)
+        return (d + 1) * 0.5 + (size - 1 - i) * 0.25
+    if kind == 3:          # neither increasing nor decreasing: neighbours swapped pairwise
+        j = np.arange(size)
+        sw = np.where((j ^ 1) < size, j ^ 1, j).astype(np.float64)
+        return (d + 1) * 0.5 + sw * 0.25
     return (d + 1) * 0.5 + i * 0.25 + (i * i) * 0.5 * (kind % 2)
 
 
@@ -193,7 +199,7 @@ def random_layout(rng, max_dims=3, max_size=4, max_elems=2000, dtypes=('f8',), m
         so = list(range(ks))
         rng.shuffle(po)
         rng.shuffle(so)
-        return Layout(ps, po, ss, so, dtype=rng.choice(list(dtypes)), vkind=rng.randint(0, 1))
+        return Layout(ps, po, ss, so, dtype=rng.choice(list(dtypes)), vkind=rng.randint(0, 3))
 
 
 def heuristic_safe(lay):
